@@ -351,7 +351,11 @@ type c10ConcParams struct {
 	//   WS a streaming Writer: Write(50), Write(50), Close (holds the message lock across steps)
 	//   WH a streaming Writer whose first chunk fills the 4096-byte write buffer exactly,
 	//      so that the next frame's header is what gets flushed: Write(4092|4088), Write(10), Close
-	A      string
+	A string
+	// Fit: the transport's window lets exactly the first call's first frame and the
+	// second call's frame through (instead of 8 bytes): the first call stalls in a
+	// later frame of its message
+	Fit    bool
 	B      string // second call: P (Ping) | W (Write) | R (Read, silent peer)
 	Cancel string // A | B | AB : whose context gets cancelled
 	Drain  bool   // the peer opens its window at a scheduler-chosen moment
@@ -366,6 +370,9 @@ func (p c10ConcParams) name() string {
 	if a == "" {
 		a = "WB"
 	}
+	if p.Fit {
+		d += "-fit"
+	}
 	return fmt.Sprintf("cc/%s+%s/cancel%s%s/%s", a, p.B, p.Cancel, d, p.K.String())
 }
 
@@ -375,6 +382,13 @@ func c10ConcSetup(prm c10ConcParams) func(c *fw.Ctx, name string) explore.Setup 
 			st := &c10State{p: vpipe.New()}
 			st.p.Window = 8
 			k := prm.K
+			if prm.Fit {
+				// WS: first frame 50 bytes of payload; P: Ping with a one-byte payload
+				st.p.Window = 2 + 50 + 2 + 1
+				if k.Client {
+					st.p.Window += 8
+				}
+			}
 			opA := prm.A
 			if opA == "" {
 				opA = "WB"
@@ -752,6 +766,14 @@ func c10Scenarios(tier string) []scenario {
 					scs = append(scs, scenario{Name: prm.name(), Cfg: cfg, Setup: c10ConcSetup(prm), Group: fmt.Sprintf("cc/%s/%s/%s/%v", k.String(), b, cs, dr)})
 				}
 			}
+		}
+		// the streamed message's first frame and a Ping get through, then the transport stalls
+		for _, cs := range []string{"A", "AB"} {
+			if cs == "AB" && tier != "thorough" {
+				continue
+			}
+			prm := c10ConcParams{K: k, A: "WS", B: "P", Cancel: cs, Fit: true}
+			scs = append(scs, scenario{Name: prm.name(), Cfg: cfg, Setup: c10ConcSetup(prm), Group: fmt.Sprintf("cc/%s/WS/P-fit/%s", k.String(), cs)})
 		}
 		// the first call is a streaming Writer
 		for _, a := range []string{"WS", "WH"} {
